@@ -4,15 +4,15 @@ READY = True
 SPEC = {
     "targets": ["Properties/C06.vo", "Run/C06.vo"],
     "theorems": {"Properties.C06": [
-        "C06_positions_spell_prefix",
-        "C06_spell_guarded_partial", "C06_spell_plain", "C06_spell_single_quoted", "C06_spell_double_noescape",
-        "C06_spell_literal", "C06_spell_folded_noblank", "C06_spell_plain_multiline", "C06_spell_flow_multiline",
+        "C06_positions_spell_prefix", "C06_positions_in_step",
+        "C06_spell_guarded_partial", "C06_spell_plain", "C06_spell_single_quoted", "C06_spell_double_noescape", "C06_spell_double_selfescape",
+        "C06_spell_literal", "C06_spell_folded_noblank", "C06_spell_folded_blank_lines", "C06_spell_plain_multiline", "C06_spell_flow_multiline",
         "C06_read_range_lands", "C06_positions_nonempty_inside", "C06_rule_lines_enclose", "C06_rule_lines_inside_file", "C06_lines_of_encloses",
         "C06_shift_equivariance", "C06_carets_exact", "C06_carets_single_range", "C06_caret_split_range_fixed", "C06_plain_end_to_end",
         "C06_refuted_dq_escape", "C06_dq_escapes_in_sync", "C06_full_statement_refuted",
         "C06_folded_blank_fixed", "C06_block_header_fixed", "C06_shallow_indent_fixed", "C06_continued_trailing_space_fixed",
         "C06_block_leading_blank_fixed", "C06_multibyte_prefix_fixed", "C06_anchor_prefix_fixed",
-        "C06_nonvacuous", "C06_nonvacuous_blocks"]},
+        "C06_nonvacuous", "C06_nonvacuous_blocks", "C06_nonvacuous_folded_paragraphs", "C06_nonvacuous_double_selfescape"]},
     # quick: 200 printed documents (+100 synthetic line-table groups) through the correspondence and the oracle;
     # thorough: 4000 documents with correspondence + 40000 more through the oracle only
     "harness_args": lambda tier: ["C06", "--n", 200] if tier == "quick" else ["C06", "--n", 4000, "--extra", 40000],
@@ -21,7 +21,7 @@ SPEC = {
     "level": "proof",
     "trusted_base": [
         "Coq 8.16.1 kernel + VM (vm_compute: the _refuted witnesses, the non-vacuity examples, the correspondence evaluation); "
-        "no axioms (Print Assumptions of all 31 theorems: closed under the global context)",
+        "no axioms (Print Assumptions of all 36 theorems: closed under the global context)",
         "hand-written Gallina model Model/Position.v of internal/diags/position.go (NewPositionRange, appendPosition, countLeadingSpace, "
         "byteColumn, skipBlanks, readRange, AddOffset, Lines, Len; Go's UTF-8 rune iteration is Model/CommentsUnicode.v decode_all) and of the lines accumulation of parseRule / YamlMap.Lines; tied to the current source on every run "
         "by differential execution only (no translator tables): the harness is compiled into the repo module and runs the REAL "
@@ -56,11 +56,13 @@ MANIFEST = {
             "6c7f5de, 9af0d98, 69b377d, d1959ae and the dq-escape fix: (0) UNCONDITIONALLY, for every line table, node (value, line, "
             "character column, block style bit, anchor) that is not double quoted, and minColumn, a call that returns gives either the one-column fallback or positions that are well "
             "formed, inside the file and read back, in order and up to line folding, a PREFIX of the value (C06_positions_spell_prefix; "
-            "induction over the greedy matcher: scan_line over bytes, npr_loop over lines with the lineBreak flag); (1) under the "
+            "induction over the greedy matcher: scan_line over bytes, npr_loop over lines with the lineBreak flag); for EVERY node, "
+            "double-quoted with arbitrary escape sequences included, the positions are in step with the value: their number equals "
+            "the length of the located prefix, so diagnostic offsets are never shifted (C06_positions_in_step); (1) under the "
             "executable completeness guard node_ok (every line's scan finds its segment; value not made of line breaks only) the call "
             "does not panic and the positions are non-empty and spell the WHOLE value; the layout relations of plain, single-quoted, "
             "double-quoted with simple escapes, literal blocks (any header line, any chomping, comments, blank and more-indented lines, "
-            "explicit indentation), folded blocks without blank lines, multi-line plain and multi-line quoted scalars are proved to imply "
+            "explicit indentation), folded blocks with and without blank lines between paragraphs, multi-line plain and multi-line quoted scalars are proved to imply "
             "the guard; (2) read_range_lands: if positions spell the value, the ranges InjectDiagnostics computes for a diagnostic's "
             "[first,last] read back exactly value[first-1:last]; carets of the rendered diagnostic sit exactly under those columns; "
             "(3) unconditionally positions are non-empty, well-formed, on lines >= the node's line; rule line ranges enclose all "
@@ -70,8 +72,9 @@ MANIFEST = {
             "dq-escape fix the scanner decodes escape sequences token by token — modelled byte-exactly incl. unescape — and stays in "
             "sync, but such a byte has no byte of its own in the file, so read back literally its position spells the escape's text; "
             "the oracle checks everything under the 'modulo escapes' reading and excuses only the literal reading of those bytes); "
-            "double-quoted scalars without escape sequences are inside the guarded theorem (lemma scan_line_dq_plain), those with "
-            "self-escapes are covered by correspondence and oracle only; the witnesses of the "
+            "double-quoted scalars without escape sequences are inside the guarded theorem (lemma scan_line_dq_plain), one-line ones "
+            "with the self-escapes \\\" and \\\\ have their own theorem (C06_spell_double_selfescape: induction over the token scanner), "
+            "multi-line ones with self-escapes are covered by correspondence and oracle only; the witnesses of the "
             "seven classes repaired by the five fix commits are positive vm_compute statements now (C06_*_fixed) and regression inputs "
             "of the oracle. Tie: differential execution of the real NewPositionRange/readRange/Lines and of the real parser (all "
             "YamlNode.Pos, Rule.Lines, YamlMap.Lines) against the model; oracle: a printing generator that knows where it put each value "
